@@ -44,6 +44,22 @@ fn main() {
     };
     let vectors: Vec<Vector> = raw.iter().map(|v| serde_json::from_value(v.clone()).unwrap_or_else(|e| panic!("vector: {e}: {v}"))).collect();
     let vectors: Vec<Vector> = vectors.into_iter().filter(|v| acts.as_ref().is_none_or(|a| a.contains(&v.obs.act))).collect();
+    if args.get(2).map(String::as_str) == Some("--functional-only") {
+        // C20, specification side: the post-state and result are a function of pre-state, call and decisions
+        let mut seen: BTreeMap<String, String> = BTreeMap::new();
+        let mut conflicts = 0usize;
+        for v in &vectors {
+            let key = serde_json::to_string(&json!([v.pre, v.inrefs, v.obs.act, v.obs.n, v.obs.ty, v.obs.t, v.obs.ima, v.obs.rla, v.obs.strat, v.obs.mig, v.obs.cres, v.obs.ures, v.obs.arg])).unwrap();
+            let val = serde_json::to_string(&json!([v.post, v.obs.ret, v.obs.calls])).unwrap();
+            if let Some(old) = seen.insert(key, val.clone()) { if old != val { conflicts += 1; } }
+        }
+        let mut s = Summary::default();
+        s.evaluations = vectors.len();
+        s.distinct_nontrivial = seen.len();
+        s.extra.insert("functional_conflicts".into(), json!(conflicts));
+        s.print();
+        return;
+    }
     let by = bystanders();
     let results = par_map(&vectors, threads(), |_, v| {
         let r = std::panic::catch_unwind(std::panic::AssertUnwindSafe(|| run_vector(&u, &scratch, v, &by)));
